@@ -10,7 +10,9 @@ Dispatch(e) == LET a == e.a  o == e.res IN
     \/ e.op = "Call"     /\ Call(a.ty, a.f, a.ps, o)
     \/ e.op = "Compare"  /\ Compare(a.ty, a.f, a.ps, o)
     \/ e.op = "Compound" /\ Compound(a.ty, a.f, a.ps, o)
-    \/ e.op = "CompareF" /\ CompareF(a.f, a.fx, a.fy, a.x, a.y, o)
+    \/ e.op = "CompareF" /\ CompareF(a.f, a.p, a.q, o)
+    \/ e.op = "CallF"    /\ CallF(a.f, a.p, a.q, o)
+    \/ e.op = "CompoundF" /\ CompoundF(a.f, a.p, a.q, o)
     \/ e.op = "Expr"     /\ Expr(a.ty, a.f, a.g, a.ps, o)
     \/ e.op = "Conv"     /\ Conv(a.vis, a.x, o)
     \/ e.op = "JsonTrip" /\ JsonTrip(a.h, a.x, o)
